@@ -115,7 +115,7 @@ def explore_all(obligations: List[Obligation], nproc: int, total_seconds: float,
         inflight = []   # (handle, name, n_prefixes, hard_deadline)
         outstanding = [0]
 
-        def submit(name, prefixes):
+        def submit(name, prefixes, attempt=0):
             remaining = max(5.0, deadline - time.time())
             ob = _OBLIGATIONS[name]
             grace = 3.0 * ob.query_timeout_ms / 1000.0 + 60.0
@@ -123,7 +123,7 @@ def explore_all(obligations: List[Obligation], nproc: int, total_seconds: float,
             # the task may wait in the pool's queue behind the tasks already submitted
             waves = 1 + (outstanding[0] + 1) // max(1, nproc)
             outstanding[0] += 1
-            inflight.append((h, name, len(prefixes), time.time() + waves * (CHUNK_SECONDS + grace)))
+            inflight.append((h, name, len(prefixes), time.time() + waves * (CHUNK_SECONDS + grace), prefixes, attempt))
 
         for name, pf in pending:
             submit(name, pf)
@@ -132,13 +132,18 @@ def explore_all(obligations: List[Obligation], nproc: int, total_seconds: float,
             progressed = False
             current, inflight = inflight, []
             for item in current:
-                h, name, npf, hard = item
+                h, name, npf, hard, pfx, attempt = item
                 if not h.ready():
                     if time.time() > hard:
                         progressed = True
                         outstanding[0] -= 1
-                        results[name]["inconclusive"].append(
-                            "a worker exploring %d prefix(es) did not return in time (solver ignored its timeout, or the worker died)" % npf)
+                        if attempt < 1 and time.time() < deadline:
+                            # one retry (in single prefixes): z3's behaviour on a hard query varies from run to run
+                            for one in pfx:
+                                submit(name, [one], attempt + 1)
+                        else:
+                            results[name]["inconclusive"].append(
+                                "a worker exploring %d prefix(es) did not return in time (solver ignored its timeout, or the worker died)" % npf)
                     else:
                         still.append(item)
                     continue
